@@ -12,3 +12,7 @@ package crypto
 //@   -- blake3.Sum256 of the content (external dependency); Blake3Of is declared in zz_contracts_c30_verif.go
 //@   modifies nothing
 //@   ensures result == Blake3Of(seq(data))
+//@   ensures result == Blake3Bytes(data)
+
+// Blake3Bytes(data): the same digest as an uninterpreted function of the byte string itself (block content, offset, length); used by C34/C28.
+//@ uninterp Blake3Bytes(data []byte) Hash
